@@ -239,3 +239,166 @@ Proof.
       match goal with |- context[if ?c then xj <| o_succ := true |> else xj] => destruct (HRf c xj) as (A2 & B2 & C2) end.
       rewrite B1, C1, B2, C2. apply (HR i j xi xj Hij Ei Ej). congruence.
 Qed.
+
+(* ---- backward frames of the model ---------------------------------------------------------------------- *)
+Definition vrel (s s' : sys) : Prop :=
+  forall n, restarts (vis_of s n) <= restarts (vis_of s' n) /\ (st (vis_of s' n) = SPending -> st (vis_of s n) = SPending).
+Definition sback (s s' : sys) : Prop :=
+  (forall j x', get j (insts s') = Some x' -> exists x, get j (insts s) = Some x /\ ikeep x x') /\ vrel s s'.
+
+Lemma ikeep_trans x y z : ikeep x y -> ikeep y z -> ikeep x z.
+Proof. unfold ikeep. intuition congruence. Qed.
+Lemma vrel_refl s : vrel s s. Proof. intros n; split; auto. Qed.
+Lemma vrel_trans s1 s2 s3 : vrel s1 s2 -> vrel s2 s3 -> vrel s1 s3.
+Proof. intros A B n. destruct (A n), (B n). split; [lia|auto]. Qed.
+Lemma sback_refl s : sback s s.
+Proof. split; [intros j x H; eauto using ikeep_refl|apply vrel_refl]. Qed.
+Lemma sback_trans s1 s2 s3 : sback s1 s2 -> sback s2 s3 -> sback s1 s3.
+Proof.
+  intros [A1 V1] [A2 V2]. split; [|eapply vrel_trans; eauto].
+  intros j z Hz. destruct (A2 j z Hz) as (y & Hy & L2). destruct (A1 j y Hy) as (x & Hx & L1). eauto using ikeep_trans.
+Qed.
+Lemma sback_eq s s' : insts s' = insts s -> viss s' = viss s -> sback s s'.
+Proof.
+  intros A B. split.
+  - intros j x H. rewrite A in H. eauto using ikeep_refl.
+  - intros n. unfold vis_of. rewrite B. split; auto.
+Qed.
+Lemma sback_upd_inst i f s : (forall x, ikeep x (f x)) -> sback s (upd_inst i f s).
+Proof.
+  intros Hf. split.
+  - intros j x'. rewrite insts_upd_inst. destruct (N.eqb i j); [|eauto using ikeep_refl].
+    destruct (get j (insts s)) as [x|]; cbn; [|discriminate]. intros [= <-]. eauto.
+  - intros n. rewrite vis_of_upd_inst. split; auto.
+Qed.
+Lemma sback_fold_upd_inst (f : inst -> inst) l : (forall x, ikeep x (f x)) ->
+  forall s, sback s (fold_left (fun s i => upd_inst i f s) l s).
+Proof.
+  intros Hf. induction l as [|a l IH]; intros s; cbn; [apply sback_refl|].
+  eapply sback_trans; [apply (sback_upd_inst a f s Hf)|apply IH].
+Qed.
+Lemma vis_of_upd_vis n f s m :
+  vis_of (upd_vis n f s) m = if N.eqb n m then match get m (viss s) with Some v => f v | None => vis_of s m end else vis_of s m.
+Proof.
+  unfold vis_of. rewrite viss_upd_vis. destruct (N.eqb n m); [|reflexivity]. destruct (get m (viss s)); reflexivity.
+Qed.
+Lemma sback_upd_vis n f s :
+  (forall v, restarts v <= restarts (f v) /\ (st (f v) = SPending -> st v = SPending)) -> sback s (upd_vis n f s).
+Proof.
+  intros Hf. split.
+  - intros j x H. rewrite upd_vis_insts in H. eauto using ikeep_refl.
+  - intros m. rewrite vis_of_upd_vis. destruct (N.eqb n m); [|split; auto].
+    unfold vis_of. destruct (get m (viss s)) as [v|]; [apply Hf|split; auto].
+Qed.
+
+Ltac ikeep_side := intros; unfold ikeep; cbn; repeat split; reflexivity.
+Ltac vkeep_side := intros; cbn; repeat match goal with |- context[match ?b with _ => _ end] => destruct b; cbn end;
+                   split; [lia|try discriminate; auto].
+Ltac sback_close :=
+  unfold set_pc, end_release_early, end_finish, write_status;
+  repeat first
+  [ apply sback_refl
+  | match goal with
+    | |- sback ?s (upd_inst ?i ?f ?X) =>
+        apply (sback_trans s X); [|apply sback_upd_inst; ikeep_side]
+    | |- sback ?s (upd_vis ?n ?f ?X) =>
+        apply (sback_trans s X); [|apply sback_upd_vis; vkeep_side]
+    | |- sback ?s (fold_left (fun s i => upd_inst i ?f s) ?l ?X) =>
+        apply (sback_trans s X); [|apply sback_fold_upd_inst; ikeep_side]
+    | |- sback ?s (set_thread ?th ?t ?X) =>
+        apply (sback_trans s X); [|apply sback_eq; reflexivity]
+    | |- sback ?s (RecordSet.set _ _ ?X) =>
+        apply (sback_trans s X); [|apply sback_eq; reflexivity]
+    | |- sback ?s (if ?b then _ else _) => destruct b
+    | |- sback ?s (match ?b with _ => _ end) => destruct b
+    end ].
+
+Lemma sback_reg s th e s' : (forall i n, e <> ENewInst i n) -> step_reg s th e = Some s' -> sback s s'.
+Proof. intros Hne H. destruct e; try (exfalso; eapply Hne; reflexivity); kind_cases H; sback_close. Qed.
+Lemma sback_stop s th e s' : step_stop s th e = Some s' -> sback s s'.
+Proof. intros H. destruct e; kind_cases H; sback_close. Qed.
+Lemma sback_api s th e s' : (forall i, e <> ENoRestart i) -> step_api s th e = Some s' -> sback s s'.
+Proof. intros Hne H. destruct e; try (exfalso; eapply Hne; reflexivity); kind_cases H; sback_close. Qed.
+Lemma sback_shutdown s th e s' : (forall l, e <> EShutdownOrder l) -> step_shutdown s th e = Some s' -> sback s s'.
+Proof. intros Hne H. destruct e; try (exfalso; eapply Hne; reflexivity); kind_cases H; sback_close. Qed.
+Lemma sback_ordered s th i s' : step_ordered_go s th i = Some s' -> sback s s'.
+Proof. intros H. kind_cases H; sback_close. Qed.
+Lemma sback_env s th e s' : (forall i c, e <> ECmdExit i c) -> step_env s th e = Some s' -> sback s s'.
+Proof. intros Hne H. destruct e; try (exfalso; eapply Hne; reflexivity); kind_cases H; sback_close. Qed.
+
+Lemma P2all_frame s o s' o' : P2all s o -> sback s s' -> oback okeep o o' -> wkeep o o' -> P2all s' o'.
+Proof.
+  intros HP [A V] B Wk j x' xo' Hx' Hxo'.
+  destruct (A j x' Hx') as (x & Ex & Ik). destruct (B j xo' Hxo') as (xo & Exo & Ok).
+  eapply P2_frame; [apply (HP j x xo Ex Exo)|exact Ik|exact Ok| |exact Wk].
+  destruct (V (nm x)) as [V1 V2]. split; auto.
+Qed.
+
+Lemma vrel_vkeep s s' x : vrel s s' -> vkeep s s' x.
+Proof. intros V. destruct (V (nm x)) as [V1 V2]. split; auto. Qed.
+
+Ltac vrel_tac :=
+  unfold set_pc, end_release_early, end_finish, write_status; intros n9; autorewrite with sup; rewrite ?vis_of_upd_vis;
+  unfold vis_of;
+  repeat match goal with |- context[N.eqb ?a n9] => destruct (N.eqb a n9) end;
+  repeat match goal with |- context[match get n9 ?m with _ => _ end] => destruct (get n9 m) end;
+  cbn; split; auto; try lia; try discriminate.
+
+Lemma st_upd_vis n f s m : (forall v, st (f v) = st v) -> st (vis_of (upd_vis n f s) m) = st (vis_of s m).
+Proof.
+  intros Hf. rewrite vis_of_upd_vis. destruct (N.eqb n m); [|reflexivity]. unfold vis_of.
+  destruct (get m (viss s)); [apply Hf|reflexivity].
+Qed.
+Lemma restarts_upd_vis n f s m : (forall v, restarts (f v) = restarts v) -> restarts (vis_of (upd_vis n f s) m) = restarts (vis_of s m).
+Proof.
+  intros Hf. rewrite vis_of_upd_vis. destruct (N.eqb n m); [|reflexivity]. unfold vis_of.
+  destruct (get m (viss s)); [apply Hf|reflexivity].
+Qed.
+
+Ltac p2_pre :=
+  repeat match goal with |- P2 _ _ ?X _ =>
+    match X with
+    | context[match ?v with _ => _ end] => destruct v eqn:?
+    | context[if ?v then _ else _] => destruct v eqn:?
+    end end.
+(* solve one clause of P2 for the acting instance after its record has been destructed *)
+Ltac p2_clause :=
+  unfold set_pc in *; autorewrite with sup in *;
+  rewrite ?st_upd_vis, ?restarts_upd_vis in * by reflexivity;
+  cbn in *; intros;
+  repeat match goal with
+  | H : _ \/ _ |- _ => destruct H
+  | H : exists _, _ |- _ => destruct H
+  | H : _ /\ _ |- _ => destruct H
+  | H : forall c, exited ?x = Some c -> _, H' : exited ?x = Some ?c0 |- _ => specialize (H _ H')
+  | H : ?A -> _, H' : ?A |- _ => specialize (H H')
+  | H : true = true -> _ |- _ => specialize (H eq_refl)
+  end;
+  try discriminate; try congruence; auto;
+  try (split; auto; try lia; try discriminate; fail);
+  try (intuition (try discriminate; try congruence; try lia; eauto); fail).
+
+Section Own.
+Context (cs : amap pconf).
+
+Ltac own_tac HP H :=
+  kind_cases H; split_andb; subst;
+  match goal with E : get ?th (thinst ?s) = Some ?i, E0 : get ?i (insts ?s) = Some ?x |- _ =>
+    intros j9 x9 xo9 Hx9 Hxo9; unfold set_pc in Hx9; autorewrite with sup in Hx9; cbn [fst snd] in Hx9;
+    destruct (N.eqb_spec i j9) as [<-|Hne];
+    [ rewrite E0 in Hx9; cbn in Hx9; injection Hx9 as <-; pose proof (HP _ _ _ E0 Hxo9) as HPx; p2_pre; destruct HPx; constructor
+    | eapply P2_frame; [apply (HP j9 x9 xo9 Hx9 Hxo9)|apply ikeep_refl|apply okeep_refl|apply vrel_vkeep; vrel_tac|apply wkeep_refl] ]
+  end;
+  try match goal with E : pc _ = _ |- _ => rewrite E in * end;
+  try (p2_clause; fail).
+
+Definition own_special (e : event) : bool :=
+  match e with EWaitReturn _ | EExitCode _ | ERestartDecision _ | EBackoffWait _ | EBackoffCancelled => true | _ => false end.
+
+Lemma P2all_own_gen s o th e s' : P2all s o -> oirr e = true -> own_special e = false -> step_own s th e = Some s' -> P2all s' o.
+Proof.
+  intros HP Hirr Hsp H.
+  destruct e; try discriminate Hirr; try discriminate Hsp; own_tac HP H; try discriminate Hirr.
+Qed.
+
+End Own.
